@@ -17,7 +17,7 @@ RULE = ("record sets of 0-13 (thorough: up to 70, beyond the default limits) rec
         "(0,3) (2,2) (5,5) (1,0) (3,1) or '*'; a quarter of the tables is printed again after another table was built from "
         "its format object (with own limits / skip_columns), a quarter after its record list grew or shrank; others "
         "are consumed line by line in turns with a second table, or rebuilt from their reported format with "
-        "hand-edited width bounds. "
+        "hand-edited width bounds, or printed again after columns were removed by name or another format was set. "
         "An independent layout model checks every line: equal visible "
         "width, border shape, separators of title and record rows at the '+' columns (by position), widths within "
         "bounds, every cell = its full text padded on either side or text[:w-d]+dots, break and skipped lines, "
@@ -32,10 +32,12 @@ TIERS = {
     "thorough": {"shards": 16, "cases": 15000, "timeout": 3000, "params": {"big": True}},
 }
 FLOORS = {"quick": {"distinct_nontrivial": 600, "tables_checked": 5000, "tables_with_skipped_records": 500,
-                    "tables_with_enum_columns": 1500, "tables_with_break_lines": 500, "truncated_cells_tables": 1500},
+                    "tables_with_enum_columns": 1500, "tables_with_break_lines": 500, "truncated_cells_tables": 1500,
+                    "tables_reprinted_after_columns_were_removed": 200, "tables_reprinted_with_another_format": 300},
           "thorough": {"distinct_nontrivial": 25000, "tables_checked": 220000, "tables_with_skipped_records": 20000,
                        "tables_with_enum_columns": 60000, "tables_with_break_lines": 20000,
-                       "truncated_cells_tables": 60000}}
+                       "truncated_cells_tables": 60000, "tables_reprinted_after_columns_were_removed": 8000,
+                       "tables_reprinted_with_another_format": 10000}}
 LEVEL_TEXT = ("Runtime exploration with an independent layout model: each generated table is rendered by the real "
               "PPTable (no_color) and every line is re-derived from the records, the column descriptions and the "
               "limits by the harness.")
@@ -55,7 +57,7 @@ def gen_case(rng, big=False):
     header = rng.choice([None, None, "H", "", "a very long header " * 3])
     footer = rng.choice([None, None, "", "f", "footer " * 6])
     titles = {f: rng.choice(T.TITLES_POOL[f]) for f in T.FIELDS}
-    later = rng.choice([None, 'derive', 'grow', 'interleave', 'edit-bounds'])
+    later = rng.choice([None, 'derive', 'grow', 'interleave', 'edit-bounds', 'remove-columns', 'set-fmt'])
     centered = rng.choice([None, None, 'a', 'b', 'd'])
     # how the records are made and how the table learns where the values are
     shape = rng.choice([None] * 9 + ['namedtuple', 'dict-paths', 'pos-paths', 'attr'])
@@ -76,7 +78,10 @@ def gen_case(rng, big=False):
         for col in cols:
             if col['field'] == bounded[0] and ':' not in col['spec']:
                 col['lo'], col['hi'] = bounded[1], bounded[2]
-    return dict(fail_first=rng.random() < 0.12 and later is None, bounded=bounded, centered=centered, shape=shape, rec_fmt_first=rng.random() < 0.25, recs=recs, fmt=fmt, cols=cols, limits=limits, lim_arg=lim_arg, header=header, footer=footer,
+    fmt2, cols2, limits2 = T.gen_fmt(rng, allow_hidden=True)
+    if limits2 is None and not fmt2.endswith(";*"):
+        fmt2 += ";*"            # (the new format says everything: columns and record limits)
+    return dict(fmt2=fmt2, cols2=cols2, limits2=limits2, fail_first=rng.random() < 0.12 and later is None, bounded=bounded, centered=centered, shape=shape, rec_fmt_first=rng.random() < 0.25, recs=recs, fmt=fmt, cols=cols, limits=limits, lim_arg=lim_arg, header=header, footer=footer,
                 titles=titles, later=later, grow_by=rng.choice([1, 1, -1]),
                 new_bounds=[(rng.choice([0, 1, 2, 3]), rng.choice([3, 4, 6, 9, 30])) for _ in range(3)],
                 extra_recs=T.gen_records(rng, (1, 3, 6)))
@@ -270,6 +275,47 @@ def judge(ctx, c, case):
                 ctx.violation(mech, dict(detail, fmt=edited, step="reported format with edited bounds"), case)
             if problems:
                 return
+    elif step == 'remove-columns' and len({x['field'] for x in cols}) > 1:
+        # some columns are removed from the printed table (by name: every column showing that field goes);
+        # names that are not columns are accepted and ignored
+        gone = cols[len(c['fmt']) % len(cols)]['field']
+        ctx.count("tables_reprinted_after_columns_were_removed")
+        try:
+            t.remove_columns([gone, "no such column"])
+            lines2 = T.render(t).split("\n")
+        except Exception as err:
+            ctx.violation("table-raises", {"type": type(err).__name__, "msg": str(err)[:200], "step": step}, case)
+            return
+        cols_left = [x for x in cols if x['field'] != gone]
+        problems = T.check_layout(lines2, c['recs'], cols_left, eff_limits, c['header'], c['footer'], c['titles'])
+        for mech, detail in problems[:3]:
+            ctx.violation(mech, dict(detail, fmt=c['fmt'], removed=gone, step="after columns were removed"), case)
+        if problems:
+            return
+    elif step == 'set-fmt' and c['lim_arg'] is None and 'fmt2' in c:
+        # the printed table is given another format (columns, widths and record limits) and printed again
+        ctx.count("tables_reprinted_with_another_format")
+        cols2 = [dict(x) for x in c['cols2'] if not x['hidden']]
+        if c.get('bounded'):
+            for col in cols2:
+                if col['field'] == c['bounded'][0] and ':' not in col['spec']:
+                    col['lo'], col['hi'] = c['bounded'][1], c['bounded'][2]
+        try:
+            if len(c['fmt2']) % 2:
+                t.set_fmt(c['fmt2'])
+            else:
+                t.fmt = c['fmt2']
+            lines2 = T.render(t).split("\n")
+        except Exception as err:
+            ctx.violation("table-raises", {"type": type(err).__name__, "msg": str(err)[:200], "step": step,
+                                           "fmt2": c['fmt2']}, case)
+            return
+        lim2 = c['limits2'] if c['limits2'] is not None else (10 ** 6, 10 ** 6)
+        problems = T.check_layout(lines2, c['recs'], cols2, lim2, c['header'], c['footer'], c['titles'])
+        for mech, detail in problems[:3]:
+            ctx.violation(mech, dict(detail, fmt=c['fmt'], fmt2=c['fmt2'], step="after another format was set"), case)
+        if problems:
+            return
     elif step == 'grow' and c['footer'] is not None:
         # the record list the table was built on grows / shrinks later: every print accounts for
         # the records it has at that moment (explicit footers only: the default footer text is
